@@ -138,9 +138,9 @@ def isEnabledBy (enabled disabled : List String) (e : Entry) (i : Inst) : Bool :
   else if enabled.isEmpty then true
   else enabled.contains i.name
 
-/-- `parsedRule.isEnabled` ; `acc` = String() of the checks already enabled -/
+/-- `parsedRule.isEnabled` ; `dup` = a check with the same String() is already enabled -/
 def instEnabled (re : Re) (cmd : String) (enabled disabled : List String) (rules : List CfgRule)
-    (acc : List String) (e : Entry) (i : Inst) : Bool :=
+    (dup : Bool) (e : Entry) (i : Inst) : Bool :=
   if !i.states.contains e.state then false
   else if !isEnabledBy enabled e.fileDisabled e i then false
   else
@@ -155,14 +155,14 @@ def instEnabled (re : Re) (cmd : String) (enabled disabled : List String) (rules
     | some true => true
     | some false =>
       if !isEnabledBy enabled disabled e i then false
-      else !acc.contains i.str
+      else !dup
 
 /-- the filtering loop of `GetChecksForEntry` over the already constructed instance list -/
 def selectFrom (re : Re) (cmd : String) (enabled disabled : List String) (rules : List CfgRule) (e : Entry) :
     List Inst → List Inst → List Inst
   | [], acc => acc
   | i :: rest, acc =>
-    if isMatch re cmd e i.ignore i.match_ && instEnabled re cmd enabled disabled rules (acc.map (·.str)) e i
+    if isMatch re cmd e i.ignore i.match_ && instEnabled re cmd enabled disabled rules ((acc.map (·.str)).contains i.str) e i
     then selectFrom re cmd enabled disabled rules e rest (acc ++ [i])
     else selectFrom re cmd enabled disabled rules e rest acc
 
